@@ -186,14 +186,18 @@ struct CliWorld : World {
                 if (faulty && r.chance(1, 3)) a.insert(a.end(), {(int64_t)r.pickv({SYS_FREAD, SYS_FREAD, SYS_FOPEN}), 1 + (int64_t)r.below(4), (int64_t)r.pickv({FK_EIO, FK_SHORT}), 1 + (int64_t)r.below(30)});
                 else a.insert(a.end(), {0, 0, 0, 0});
                 Op o; o.name = "sum"; o.a = a; pl.ops.push_back(o);
+            } else if (c < 93) {
+                // several input files on one command line: encrypt them together (with faults), then decrypt them together
+                std::vector<int64_t> a = {(int64_t)(2 + r.below(2)), (int64_t)r.pickv({0, 1, 2, 7, 8}), (int64_t)(r.chance(1, 2) ? 1 + r.below(3) : 0), (int64_t)(r.next() >> 1)};
+                gen_fault(r, a, faulty, false);
+                Op o; o.name = "multi"; o.a = a; pl.ops.push_back(o);
             } else if (c < 97) {
                 // write a checksum list for the current files, optionally spoil something, then check it
                 {
                     std::vector<int64_t> a = {(int64_t)r.below(4), (int64_t)(1 + r.below(7)), (int64_t)r.below(8), (int64_t)(r.next() >> 1)};
-                    for (int k = 0; k < 2; ++k) { // transient read faults only
+                    for (int k = 0; k < 2; ++k) { // transient read faults only (asconsum reads through stdio: short fread transfers)
                         if (!faulty || !r.chance(1, 2)) { a.insert(a.end(), {0, 0, 0, 0}); continue; }
-                        int kind = (int)r.pickv({FK_EINTR, FK_EAGAIN, FK_SHORT});
-                        a.insert(a.end(), {SYS_READ, 1 + (int64_t)r.below(7), kind, kind == FK_SHORT ? 1 + (int64_t)r.below(40) : 1 + (int64_t)r.below(4)});
+                        a.insert(a.end(), {SYS_FREAD, 1 + (int64_t)r.below(7), FK_SHORT, 1 + (int64_t)r.below(40)});
                     }
                     Op o; o.name = "chk"; o.a = a; pl.ops.push_back(o);
                 }
@@ -565,6 +569,86 @@ struct CliWorld : World {
         }
     }
 
+    // Several INPUT arguments in one invocation.  C19 per file: an output that exists is a complete, valid output;
+    // per invocation: any hard fault, and any tampered input, makes the exit status non-zero.
+    static void do_multi(Ctx &c, const Op &op)
+    {
+        int nf = 2 + (int)(op.u(0) % 2);
+        std::string pw = password(op.arg(1));
+        if (pw.empty() || pw.size() >= 1000) pw = "multi-pw";
+        int tamper = (int)(op.u(2) % 4); // 0 none, else 1-based index of the container to spoil before the joint decryption
+        Rng r(op.u(3));
+        std::vector<std::string> in, enc;
+        std::vector<Bytes> plain;
+        for (int i = 0; i < nf; ++i) {
+            in.push_back("m" + std::to_string(i) + ".bin");
+            enc.push_back(in[i] + ".ascon");
+            size_t len = r.chance(1, 4) ? 0 : r.chance(1, 2) ? r.below(200) : BUFSZ - 20 + r.below(60);
+            plain.push_back(bytes_of(len, r.next()));
+            vfs_put(in[i].c_str(), plain[i].data(), plain[i].size());
+            vfs_remove(enc[i].c_str());
+        }
+        auto cleanup = [&]() { for (int i = 0; i < nf; ++i) { vfs_remove(in[i].c_str()); vfs_remove(enc[i].c_str()); c.meta.erase(in[i]); c.meta.erase(enc[i]); } };
+        std::vector<std::string> args = {"asconcrypt", "-e", "-p", pw};
+        for (auto &f : in) args.push_back(f);
+        Result e = run_tool(c, 0, args, &op, 4, -1, 0);
+        c.run->fold_u64((uint64_t)e.exit_code);
+        const std::string site = "asconcrypt.encrypt.multi";
+        c.run->state(fmt("multi/enc/%d/%d/%d/%d", nf, e.exit_code != 0, (int)e.hard, (int)e.crashed));
+        if (e.cap_hit) { viol(c, "liveness", site, "syscall cap exceeded"); cleanup(); return; }
+        if (e.crashed) { cleanup(); return; }
+        int valid = 0;
+        for (int i = 0; i < nf; ++i) {
+            bool ex;
+            Bytes f = vfs_get(enc[i], &ex);
+            if (!ex) continue;
+            if (container_valid(c, f, pw, plain[i])) ++valid;
+            else viol(c, "partial_output_left", site, fmt("input %d of %d: an output of %zu bytes exists that is not an encryption of its %zu-byte input; %s", i + 1, nf, f.size(), plain[i].size(), fault_summary(e).c_str()));
+        }
+        if (e.hard) {
+            if (e.exit_code == 0) viol(c, "exit_zero_after_io_error", site, fault_summary(e));
+            cleanup();
+            return;
+        }
+        if (e.exit_code != 0) { if (!transient_fired(e)) viol(c, "fails_without_fault", site, fault_summary(e)); cleanup(); return; }
+        if (valid != nf) { viol(c, "exit_zero_with_bad_output", site, fmt("%d of %d outputs present and valid; %s", valid, nf, fault_summary(e).c_str())); cleanup(); return; }
+        c.run->probe("multi.enc_ok");
+        // joint decryption, fault-free, one container possibly spoiled
+        for (int i = 0; i < nf; ++i) vfs_remove(in[i].c_str());
+        int t = tamper && tamper <= nf ? tamper - 1 : -1;
+        if (t >= 0) {
+            int vi = vfs_find(enc[t].c_str());
+            vfile &v = g_os->files[vi];
+            if (r.chance(1, 2) && v.size) { size_t b = r.below(v.size * 8); v.data[b / 8] ^= 1u << (b % 8); c.run->fault("fs.tamper_bit"); }
+            else { v.size = r.below(v.size); c.run->fault("fs.tamper_truncate"); }
+        }
+        args = {"asconcrypt", "-d", "-p", pw};
+        for (auto &f : enc) args.push_back(f);
+        int chunk = c.chunk, eintr = c.eintr;
+        Result d = run_tool(c, 0, args, nullptr, 0, -1, 0);
+        (void)chunk; (void)eintr;
+        c.run->fold_u64((uint64_t)d.exit_code);
+        const std::string dsite = "asconcrypt.decrypt.multi";
+        c.run->state(fmt("multi/dec/%d/%d/%d", nf, t >= 0, d.exit_code != 0));
+        if (d.cap_hit) { viol(c, "liveness", dsite, "syscall cap exceeded"); cleanup(); return; }
+        if ((d.exit_code != 0) != (t >= 0)) {
+            if (t >= 0) viol(c, "exit_zero_after_tampered_or_truncated_input", dsite, fmt("input %d of %d was modified, exit status 0", t + 1, nf));
+            else if (!transient_fired(d)) viol(c, "fails_without_fault", dsite, fault_summary(d));
+        }
+        for (int i = 0; i < nf; ++i) {
+            bool ex;
+            Bytes f = vfs_get(in[i], &ex);
+            if (i == t) { if (ex) viol(c, "output_left_after_failure", dsite, fmt("input %d of %d was modified and an output of %zu bytes was left behind", i + 1, nf, f.size())); }
+            else if (d.exit_code == 0 || t >= 0) {
+                // an intact input that comes after the spoiled one may be left alone by a tool that stops at the first failure
+                bool may_be_absent = t >= 0 && i > t;
+                if (ex ? f != plain[i] : !may_be_absent) viol(c, "roundtrip", dsite, fmt("input %d of %d: %s", i + 1, nf, ex ? "decrypted content differs from the original" : "no output although this input is intact"));
+                else if (ex) c.run->probe("multi.dec_roundtrip_ok");
+            }
+        }
+        cleanup();
+    }
+
     static void do_gen(Ctx &c, const Op &op)
     {
         std::string kf = "gen" + std::to_string(op.arg(0) % 3) + ".key";
@@ -933,7 +1017,7 @@ struct CliWorld : World {
         std::vector<std::string> args = {"asconsum", "-c"};
         if (alg != 0) args.push_back(alg_flag(alg));
         args.push_back("sums.txt");
-        // transient read faults only (EINTR, EAGAIN, short reads: op args 4..11): the verdicts must be those of a quiet run.
+        // transient read faults only (short stdio transfers: op args 4..11): the verdicts must be those of a quiet run.
         // What check mode owes the caller after a hard read error on a listed file is not stated by C19 and is not generated.
         Result res = run_tool(c, 1, args, &op, 4, -1, 0);
         c.run->fold_u64((uint64_t)res.exit_code);
@@ -988,6 +1072,7 @@ struct CliWorld : World {
             else if (op.name == "usage") do_usage(c, op);
             else if (op.name == "sum") do_sum(c, op);
             else if (op.name == "chk") do_chk(c, op);
+            else if (op.name == "multi") do_multi(c, op);
         }
         ::remove(child_err_path().c_str());
     }
